@@ -222,7 +222,7 @@ def gen_row(rng, kind, attrs, named_p=0.3, pool=POOL):
     vals = [[TAG[ty], rng.choice(pool[ty])] for _, ty in attrs]
     if rng.random() < named_p and attrs:
         # a named INSERT may leave attributes out (they read None: the "unset" null) and list them in any order
-        idx = [i for i in range(len(attrs)) if rng.random() < 0.75]
+        idx = [i for i in range(len(attrs)) if rng.random() < 0.75] or [rng.randrange(len(attrs))]
         rng.shuffle(idx)
         names = [attrs[i][0] for i in idx]
         vs = [vals[i] for i in idx]
